@@ -98,8 +98,13 @@ pub fn decode_body(bytes: Vec<u8>, content_encoding: Option<&str>) -> Result<Str
                 // If encoding_rs returned a `Cow::Borrowed`, the bytes are guaranteed to be valid
                 // UTF-8, by virtue of being UTF-8 or being in the subset of ASCII that is the same
                 // in UTF-8.
-                Cow::Borrowed(_) => unsafe { String::from_utf8_unchecked(bytes) },
-                Cow::Owned(string) => string,
+                //
+                // The borrowed slice is the input without its byte order mark, if it had one, so
+                // the input can only be reused when nothing was stripped.
+                Cow::Borrowed(s) if s.len() == bytes.len() => unsafe {
+                    String::from_utf8_unchecked(bytes)
+                },
+                decoded => decoded.into_owned(),
             })
         }
     } else {
